@@ -69,6 +69,8 @@ type cyInput struct {
 	FailScale int       `json:"failScale"`
 	// multi replica form (C19); when present the single replica fields are ignored
 	Replicas []cyReplica `json:"replicas,omitempty"`
+	// a second cycle of the same coordinator (same explorer objects) with other shard scripts (C19)
+	Replicas2 []cyReplica `json:"replicas2,omitempty"`
 }
 
 type cyPostTarget struct {
@@ -306,6 +308,36 @@ func cmdCycle(args []string) error {
 	return firstErr
 }
 
+func buildManagers(reps []cyReplica, now time.Time) []*cyManager {
+	var ms []*cyManager
+	for ri := range reps {
+		m := &cyManager{in: &reps[ri], idx: ri}
+		for si := range reps[ri].Shards {
+			s := &reps[ri].Shards[si]
+			m.shards = append(m.shards, &cyShardRT{in: s, cfgOK: true, now: now, post: cyPost{Targets: []cyPostTarget{}}})
+		}
+		ms = append(ms, m)
+	}
+	return ms
+}
+
+func collectOuts(ms []*cyManager, panicked bool, msg string) []cyOut {
+	outs := make([]cyOut, len(ms))
+	for ri, m := range ms {
+		o := cyOut{Panic: panicked, PanicMsg: msg, Scales: append([]int32{}, m.scales...), Listed: m.listed}
+		for _, s := range m.shards {
+			o.Reqs = append(o.Reqs, append([]string{}, s.reqs...))
+			o.Posts = append(o.Posts, s.post)
+			o.CfgBodyOK = append(o.CfgBodyOK, s.cfgOK)
+		}
+		if o.Reqs == nil {
+			o.Reqs, o.Posts, o.CfgBodyOK = [][]string{}, []cyPost{}, []bool{}
+		}
+		outs[ri] = o
+	}
+	return outs
+}
+
 func runCycle(ci *cyInput) []cyOut {
 	reps := ci.Replicas
 	if len(reps) == 0 {
@@ -313,14 +345,7 @@ func runCycle(ci *cyInput) []cyOut {
 	}
 	now := time.Now()
 	rm := &cyRM{}
-	for ri := range reps {
-		m := &cyManager{in: &reps[ri], idx: ri}
-		for si := range reps[ri].Shards {
-			s := &reps[ri].Shards[si]
-			m.shards = append(m.shards, &cyShardRT{in: s, cfgOK: true, now: now, post: cyPost{Targets: []cyPostTarget{}}})
-		}
-		rm.ms = append(rm.ms, m)
-	}
+	rm.ms = buildManagers(reps, now)
 
 	active := map[uint64]*discovery.SDTargets{}
 	for _, t := range ci.Active {
@@ -375,18 +400,20 @@ func runCycle(ci *cyInput) []cyOut {
 		_ = c.VerifRunOnce()
 	}()
 
-	outs := make([]cyOut, len(rm.ms))
-	for ri, m := range rm.ms {
-		o := cyOut{Panic: panicked, PanicMsg: msg, Scales: append([]int32{}, m.scales...), Listed: m.listed}
-		for _, s := range m.shards {
-			o.Reqs = append(o.Reqs, append([]string{}, s.reqs...))
-			o.Posts = append(o.Posts, s.post)
-			o.CfgBodyOK = append(o.CfgBodyOK, s.cfgOK)
-		}
-		if o.Reqs == nil {
-			o.Reqs, o.Posts, o.CfgBodyOK = [][]string{}, []cyPost{}, []bool{}
-		}
-		outs[ri] = o
+	outs := collectOuts(rm.ms, panicked, msg)
+	if len(ci.Replicas2) > 0 {
+		// a second cycle of the same coordinator: same explorer objects, new shard scripts
+		rm.ms = buildManagers(ci.Replicas2, now)
+		panicked, msg = false, ""
+		func() {
+			defer func() {
+				if r := recover(); r != nil {
+					panicked, msg = true, fmt.Sprint(r)
+				}
+			}()
+			_ = c.VerifRunOnce()
+		}()
+		outs = append(outs, collectOuts(rm.ms, panicked, msg)...)
 	}
 	return outs
 }
